@@ -343,6 +343,7 @@ func (in *Interp) ite(c value, t types.Type, a, b value) value {
 // binary operators
 
 func (in *Interp) runtimePanic(msg string) {
+	debugRuntimePanic(in, msg)
 	panic(targetPanic{runtime: msg})
 }
 
